@@ -834,7 +834,12 @@ fn write_evidence(prop: &str, tier: &str, seed: u64, agg: &Agg, wall: f64, viola
         "wall_s": wall,
         "violations": violations,
     });
-    let dir = vdir.join("evidence");
+    // FLATSIM_EVIDENCE_DIR: debugging runs (e.g. against a patched tree) must not overwrite the
+    // committed evidence
+    let dir = match std::env::var("FLATSIM_EVIDENCE_DIR") {
+        Ok(d) => std::path::PathBuf::from(d),
+        Err(_) => vdir.join("evidence"),
+    };
     let _ = std::fs::create_dir_all(&dir);
     let path = dir.join(format!("{}.json", prop));
     if let Err(e) = std::fs::write(&path, serde_json::to_string_pretty(&ev).unwrap()) {
